@@ -6,6 +6,7 @@ CONSTANTS
   FIXWRAP = TRUE
   FIXHOPS = TRUE
   FIXOHEXP = TRUE
+  FIXOHSEC = TRUE
   XorAcc <- SymXor
   GEN = TRUE
-INVARIANTS ErrIsAtomic StdAgree EndsSwap ExpiryTotal Emit
+INVARIANTS ErrIsAtomic StdAgree EndsSwap ExpiryTotal SetSecondAgree Emit
